@@ -433,9 +433,9 @@ func checkC12(P *Prog, r *Result) {
 	if fn := P.fn("(*zog/internals.SchemaCtx).IssueFromUnknownError"); fn != nil {
 		r.sawFunc(fname(fn))
 		if problems := P.unknownErrorShape(fn); len(problems) == 0 {
-			r.ok("C12/unknown-error-shape", fname(fn), P.pos(fn.Pos()), "err.(*ZogIssue) ? that issue, untouched but for a missing type : a fresh issue whose Err is err and whose Path is the context's")
+			r.ok("C12/unknown-error-shape", fname(fn), P.pos(fn.Pos()), "err.(*ZogIssue) ? a fresh issue holding a copy of it, given the node's type if it has none, the callback's object untouched : a fresh issue whose Err is err and whose Path is the context's")
 		} else {
-			r.bad("C12/unknown-error-shape", fname(fn), P.pos(fn.Pos()), "a callback's error is not reported as (the returned *ZogIssue itself | a fresh issue at the node's path wrapping exactly that error)", problems...)
+			r.bad("C12/unknown-error-shape", fname(fn), P.pos(fn.Pos()), "a callback's error is not reported as (a fresh copy of the returned *ZogIssue | a fresh issue at the node's path wrapping exactly that error)", problems...)
 		}
 	} else {
 		r.broken("anchor IssueFromUnknownError not found")
@@ -912,7 +912,15 @@ func (P *Prog) unknownErrorShape(fn *ssa.Function) []string {
 		if !ok {
 			return nil
 		}
-		_, f := fieldVar(cv(st.Addr))
+		// `*e = *zerr`: the execution's own copy of the callback's issue
+		if u, isU := cv(st.Val).(*ssa.UnOp); isU && u.Op == token.MUL && origin(u.X, 0) == "ASSERTED" && origin(st.Addr, 0) == "FRESH" {
+			return []pathItem{{kind: "COPY", in: in}}
+		}
+		fbase, f := fieldVar(cv(st.Addr))
+		if f != nil && fbase != nil && origin(fbase, 0) == "ASSERTED" {
+			// the callback's issue belongs to the callback's author (a sentinel returned from every call)
+			return []pathItem{{kind: "WRITE-FOREIGN", val: f.Name(), in: in}}
+		}
 		switch {
 		case f != nil && dtypeF != nil && sameField(f, dtypeF):
 			return []pathItem{{kind: "DTYPE", in: in}}
@@ -951,8 +959,15 @@ func (P *Prog) unknownErrorShape(fn *ssa.Function) []string {
 		}
 		is, lastErr, lastPath := "", "", ""
 		dtypeEmpty, dtypeWritten := "", false
+		copied := false
+		var foreign []string
 		for _, it := range p.items {
 			switch it.kind {
+			case "COPY":
+				copied = true
+				lastErr, lastPath, dtypeWritten = "", "", false // what was written into the blank before the copy is overwritten by it
+			case "WRITE-FOREIGN":
+				foreign = append(foreign, it.val)
 			case "DTYPE-EMPTY":
 				dtypeEmpty = it.val
 			case "DTYPE":
@@ -970,8 +985,13 @@ func (P *Prog) unknownErrorShape(fn *ssa.Function) []string {
 			problems = append(problems, "a return that is reached without asking whether the error is a *ZogIssue  [path: "+p.String()+"]")
 		case is == "T":
 			nT++
-			if !strings.Contains(p.end, "ORIGIN=ASSERTED") {
-				problems = append(problems, "the error is a *ZogIssue but another object is returned  [path: "+p.String()+"]")
+			// the execution reports a copy of its own: the callback's object (a sentinel a user returns from every
+			// call) is never written to, never reaches the issue pool and never becomes the issue of two executions
+			if !strings.Contains(p.end, "ORIGIN=FRESH") || !copied {
+				problems = append(problems, "the error is a *ZogIssue and what is returned is not a fresh issue holding a copy of it (the callback's own object would be formatted, caught into the pool and shared between executions)  [path: "+p.String()+"]")
+			}
+			if len(foreign) > 0 {
+				problems = append(problems, "the callback's own issue object is written to ("+strings.Join(uniqSorted(foreign), ", ")+")  [path: "+p.String()+"]")
 			}
 			if lastErr != "" || lastPath != "" {
 				problems = append(problems, "the callback's own issue has its Err or Path rewritten  [path: "+p.String()+"]")
